@@ -107,6 +107,14 @@ func (c *float64SymbolComparator) Compare(row1, row2 RowCursor) int {
 		}
 	} else if s2 == nil {
 		result = 1
+	} else if *s1 != *s1 || *s2 != *s2 {
+		// NaN compares false with everything: order it before every number (and equal to NaN), so that
+		// the comparison stays a total order and the result does not depend on the insertion order
+		if *s1 == *s1 {
+			result = 1
+		} else if *s2 == *s2 {
+			result = -1
+		}
 	} else if *s1 < *s2 {
 		result = -1
 	} else if *s1 > *s2 {
